@@ -317,7 +317,13 @@ func SuperMain(propID, tier string, replayCase *Case) int {
 			o.Note = "no observation"
 		}
 		if o.Status == "died" {
-			o.Violate("process-death/"+c.Kind+"/"+DeathSite(o.Stderr), "worker process died while running this case: %s\n%s", o.Note, o.Stderr)
+			cls := c.Kind
+			if p.Classify != nil {
+				if pn := Catch(func() { cls = p.Classify(c) }); pn != "" {
+					cls = c.Kind
+				}
+			}
+			o.Violate("process-death/"+cls+"/"+DeathSite(o.Stderr), "worker process died while running this case: %s\n%s", o.Note, o.Stderr)
 		}
 		obs = append(obs, o)
 	}
@@ -394,7 +400,7 @@ func SuperMain(propID, tier string, replayCase *Case) int {
 			}
 			known := false
 			for _, f := range findings {
-				if f.Prop == vp && f.Sig == v.Sig {
+				if f.Prop == vp && GlobMatch(f.Sig, v.Sig) {
 					known = true
 					knownSeen[f.Prop+" "+f.Sig+" "+f.Text]++
 				}
@@ -484,6 +490,26 @@ func SuperMain(propID, tier string, replayCase *Case) int {
 		return 2
 	}
 	return 0
+}
+
+// GlobMatch matches a known-finding signature pattern: '*' stands for any run of characters.
+func GlobMatch(pattern, s string) bool {
+	if !strings.Contains(pattern, "*") {
+		return pattern == s
+	}
+	parts := strings.Split(pattern, "*")
+	if !strings.HasPrefix(s, parts[0]) {
+		return false
+	}
+	s = s[len(parts[0]):]
+	for i := 1; i < len(parts)-1; i++ {
+		j := strings.Index(s, parts[i])
+		if j < 0 {
+			return false
+		}
+		s = s[j+len(parts[i]):]
+	}
+	return strings.HasSuffix(s, parts[len(parts)-1])
 }
 
 func firstLine(s string) string {
